@@ -577,21 +577,27 @@ func c09CorpusCases() []c09Corpus {
 		{"fixed2.delete_A_C_of_A_B_C", cat([]c09Op{cAdd(1, 3600, 1, 2, 3), cSet(1, 0, 1, 3), cAddrs(1), cGC()}, obsAll(1))},
 		{"fixed2.delete_all_but_one_of_five", cat([]c09Op{cAdd(1, 3600, 1, 2, 3, 4, 5), cSet(1, -1, 5, 4, 2, 1), cAddrs(1), cSet(1, 0, 3, 3), cAddrs(1), cGC()}, obsAll(1))},
 		{"fixed2.consume_supersedes_several", cat([]c09Op{cCon(1, 1, 3600, 1, 2, 3, 4), cCon(1, 2, 3600, 2), cAddrs(1), cGC()}, obsAll(1))},
-		// item 5 and relatives (open): expired-but-uncollected state consulted
-		{"open.a.lower_seq_after_expiry_before_gc", cat([]c09Op{cCon(1, 5, 120, 1), cAdv(180), cCon(1, 3, 3600, 2)}, obsAll(1))},
-		{"open.b.readd_keeps_old_class", cat([]c09Op{cAdd(1, 3600, 1), cAdv(7200), cAdd(1, 120, 1), cUpd(1, 3600, 0)}, obsAll(1))},
-		{"open.c.update_resurrects_expired", cat([]c09Op{cAdd(1, 120, 1), cAdv(180), cUpd(1, 120, 3600)}, obsAll(1))},
-		{"open.d.lapsed_record_after_readd", cat([]c09Op{cCon(1, 5, 120, 1), cAdv(180), cAdd(1, 3600, 2)}, obsAll(1), []c09Op{cCon(1, 3, 3600, 3)}, obsAll(1))},
-		{"open.d2.lapsed_record_read_then_readd", cat([]c09Op{cCon(1, 5, 120, 1), cAdv(180)}, obsAll(1), []c09Op{cAdd(1, 3600, 2)}, obsAll(1))},
+		// item 5 and relatives (repaired by 39ac082, c312de3, 6eab440): the 13 recorded finding
+		// histories, one or more per former known-finding key; all must pass now
+		{"fixed5.mem_stale_seq.lower_seq_after_expiry_before_gc", cat([]c09Op{cCon(1, 5, 120, 1), cAdv(180), cCon(1, 3, 3600, 2)}, obsAll(1))},
+		{"fixed5.mem_stale_entry_add.readd_keeps_old_class", cat([]c09Op{cAdd(1, 3600, 1), cAdv(7200), cAdd(1, 120, 1), cUpd(1, 3600, 0)}, obsAll(1))},
+		{"fixed5.mem_stale_entry_update.update_resurrects_expired", cat([]c09Op{cAdd(1, 120, 1), cAdv(180), cUpd(1, 120, 3600)}, obsAll(1))},
+		{"fixed5.lapsed_record_add.lapsed_record_after_readd", cat([]c09Op{cCon(1, 5, 120, 1), cAdv(180), cAdd(1, 3600, 2)}, obsAll(1), []c09Op{cCon(1, 3, 3600, 3)}, obsAll(1))},
+		{"fixed5.lapsed_record_add_after_read.lapsed_record_read_then_readd", cat([]c09Op{cCon(1, 5, 120, 1), cAdv(180)}, obsAll(1), []c09Op{cAdd(1, 3600, 2)}, obsAll(1))},
 		{"ok.d3.lapsed_record_gc_then_readd", cat([]c09Op{cCon(1, 5, 120, 1), cAdv(180), cGC(), cAdd(1, 3600, 2)}, obsAll(1))},
-		{"open.e.lapsed_record_evicts", cat([]c09Op{cCon(1, 5, 120, 1), cAdv(180), cAdd(1, 3600, 1), cCon(1, 6, 3600, 2)}, obsAll(1))},
-		{"open.f.set0_all_then_readd", cat([]c09Op{cCon(1, 5, 3600, 1), cSet(1, 0, 1), cAdd(1, 3600, 2)}, obsAll(1))},
-		{"open.g.update0_all_then_readd", cat([]c09Op{cCon(1, 5, 3600, 1), cUpd(1, 3600, 0), cAdd(1, 3600, 2)}, obsAll(1))},
+		{"fixed5.lapsed_record_consume.lapsed_record_evicts", cat([]c09Op{cCon(1, 5, 120, 1), cAdv(180), cAdd(1, 3600, 1), cCon(1, 6, 3600, 2)}, obsAll(1))},
+		{"fixed5.ds_lapsed_record_set0.set0_all_then_readd", cat([]c09Op{cCon(1, 5, 3600, 1), cSet(1, 0, 1), cAdd(1, 3600, 2)}, obsAll(1))},
+		{"fixed5.ds_lapsed_record_update0.update0_all_then_readd", cat([]c09Op{cCon(1, 5, 3600, 1), cUpd(1, 3600, 0), cAdd(1, 3600, 2)}, obsAll(1))},
 		{"ok.h.update_to_negative", cat([]c09Op{cAdd(1, 3600, 1, 2), cUpd(1, 3600, -1)}, obsAll(1), []c09Op{cGC()}, obsAll(1))},
-		{"open.i.consume_ttl0_then_add", cat([]c09Op{cCon(1, 5, 0, 1)}, obsAll(1), []c09Op{cAdd(1, 3600, 2)}, obsAll(1), []c09Op{cCon(1, 4, 3600, 1)}, obsAll(1))},
+		{"fixed5.ds_lapsed_record_ttl0.consume_ttl0_then_add", cat([]c09Op{cCon(1, 5, 0, 1)}, obsAll(1), []c09Op{cAdd(1, 3600, 2)}, obsAll(1), []c09Op{cCon(1, 4, 3600, 1)}, obsAll(1))},
 		{"ok.j.consume_empty_record", cat([]c09Op{cAdd(1, 3600, 2), cCon(1, 5, 3600)}, obsAll(1), []c09Op{cCon(1, 4, 3600, 1)}, obsAll(1))},
-		{"open.k.record_suffix_own_then_plain", cat([]c09Op{cConRaw(1, 1, 3600, [2]int64{1, 1}, [2]int64{2, 0}), cConRaw(1, 2, 120, [2]int64{3, 0})}, obsAll(1))},
-		{"open.l.record_plain_then_suffix_own", cat([]c09Op{cConRaw(1, 1, 3600, [2]int64{1, 0}), cConRaw(1, 2, 120, [2]int64{1, 1})}, obsAll(1), []c09Op{cAdv(120)}, obsAll(1))},
+		{"fixed5.record_suffix.record_suffix_own_then_plain", cat([]c09Op{cConRaw(1, 1, 3600, [2]int64{1, 1}, [2]int64{2, 0}), cConRaw(1, 2, 120, [2]int64{3, 0})}, obsAll(1))},
+		{"fixed5.record_suffix.record_plain_then_suffix_own", cat([]c09Op{cConRaw(1, 1, 3600, [2]int64{1, 0}), cConRaw(1, 2, 120, [2]int64{1, 1})}, obsAll(1), []c09Op{cAdv(120)}, obsAll(1))},
+		{"fixed5.mem_stale_entry_consume", cat([]c09Op{cAdd(1, 3600, 1), cAdv(7200), cCon(1, 1, 120, 1), cUpd(1, 3600, 0)}, obsAll(1))},
+		{"fixed5.lapsed_record_set", cat([]c09Op{cCon(1, 5, 120, 1), cAdv(180), cSet(1, 3600, 2)}, obsAll(1), []c09Op{cCon(1, 3, 3600, 3)}, obsAll(1))},
+		{"fixed5.mem_lapsed_record_update", cat([]c09Op{cCon(1, 1, 900, 1), cAdv(3600), cUpd(1, 900, 120)}, obsAll(1), []c09Op{cGC()}, obsAll(1))},
+		{"fixed5.ds_gc_lookahead_cached_clean", cat([]c09Op{cAdd(1, 120, 1), cAdv(180), cRec(1), cGC(), cPeers()}, obsAll(1))},
+		{"fixed5.ds_gc_lookahead_cached_partial", cat([]c09Op{cAdd(1, 9223372036854775807 / 1000000000 * 0 + (1 << 40) + 1, 4), cAdd(1, 120, 2, 3), cAdv(899), cUpd(1, 1 << 40, (1<<40)+1), cGC(), cPeers()}, obsAll(1))},
 		// exactly-at-expiry, TTL class moves, permanent
 		{"ok.exactly_at_expiry", cat([]c09Op{cAdd(1, 120, 1), cAdd(2, 900, 1, 2), cAdv(119)}, obsAll(1, 2), []c09Op{cAdv(1)}, obsAll(1, 2), []c09Op{cGC()}, obsAll(1, 2), []c09Op{cAdv(779)}, obsAll(2), []c09Op{cAdv(1), cGC()}, obsAll(2))},
 		{"ok.add_never_shortens", cat([]c09Op{cAdd(1, 3600, 1), cAdd(1, 120, 1), cAdv(121)}, obsAll(1), []c09Op{cSet(1, 120, 1), cAdv(120), cGC()}, obsAll(1))},
